@@ -267,7 +267,10 @@ def _wash(obs, case):
         a[bad] = 2 if hi else -1
     elif bad == "tips":
         a["tips"] = a["tips"] + [9 if hi else 0]
-    wl = robotools.EvoWorklist()
+    # the wash command is a script command of its own: the worklist's DiTi mode (which governs W records) does not change it
+    diti = (a["waste_delay"] + a["cleaner_delay"]) % 2 == 1
+    wl = robotools.EvoWorklist(diti_mode=diti)
+    obs.cls("wash:diti_mode=" + str(diti))
     wl.append("C;before")
     exc = None
     try:
@@ -295,6 +298,9 @@ def _wash(obs, case):
         rec = gwl.parse_record(new[0])
     except gwl.GwlError as e:
         obs.bad("C13/wash-malformed", f"{new[0]!r}: {e}")
+        return
+    if "args" not in rec.f or not new[0].startswith("B;Wash("):
+        obs.bad("C13/wash-records", f"evo_wash (diti_mode={diti}) appended {new[0]!r} instead of a B;Wash(...) command")
         return
     args = rec.f["args"]
     mask = 0
